@@ -1684,7 +1684,9 @@ static WBXMLError wbxml_fill_header(WBXMLEncoder *encoder, WBXMLBuffer *header)
 
     /* Encode Charset (default: UTF-8) and String Table Length */
     /** @todo Handle correctly the charset */
-    if (!wbxml_buffer_append_mb_uint_32(header, WBXML_ENCODER_DEFAULT_CHARSET) ||
+    /* (there is no charset field in a WBXML 1.0 header: the parser does not read one) */
+    if (((encoder->wbxml_version != WBXML_VERSION_10) &&
+         !wbxml_buffer_append_mb_uint_32(header, WBXML_ENCODER_DEFAULT_CHARSET)) ||
         !wbxml_buffer_append_mb_uint_32(header, strstbl_len))
     {
         if (pid && !added) wbxml_buffer_destroy(pid);
